@@ -129,7 +129,9 @@ def links_ok(root):
 
 
 def registered_ok(root):
-    return all(Node.get_node_instance(n.id) is n for n in walk(root))
+    # every id of the tree is retrievable and leads to a node of this tree carrying that id (ids may repeat in a tree)
+    nodes = list(walk(root))
+    return all(any(Node.get_node_instance(n.id) is m for m in nodes if m.id == n.id) for n in nodes)
 
 
 def roundtrip_events(root, at, conv, desc):
@@ -234,7 +236,8 @@ def random_tree(rnd, size):
     prefixes = [rtext(rnd) or "p" for _ in range(4)]
     for _ in range(size - 1):
         p = rnd.choice(nodes)
-        c = Node(rtext(rnd) or "n")
+        # now and then a node that carries the id of another node of the tree (nothing forbids it; save/load must keep both)
+        c = Node(rtext(rnd) or "n", id=rnd.choice(nodes).id) if rnd.random() < 0.04 else Node(rtext(rnd) or "n")
         if rnd.random() < 0.3:
             c.add_namespace(rnd.choice(prefixes), rtext(rnd))
         p.add_child(c, index=rnd.randint(0, len(p.children)))      # attach establishes the prefix-inclusion invariant
